@@ -80,7 +80,10 @@ Section Code.
   Definition sw_code_step (s : SlidingWindowPolicy O) (o : pop) : SlidingWindowPolicy O * Z :=
     match o with
     | Acq t => let '(s', b) := SlidingWindowPolicy_try_acquire O s t in (s', b2z b)
-    | Tua t => SlidingWindowPolicy_time_until_available O s t
+    | Tua t => match SlidingWindowPolicy_time_until_available O s t with
+               | Some r => r
+               | None => (s, -1)              (* IndexError: empty log with max_requests <= 0 *)
+               end
     end.
 
   Definition sw_rel (wn n : Z) (a : SlidingWindowPolicy O) (b : list Z) : Prop :=
@@ -94,8 +97,7 @@ Section Code.
     - destruct (tie_sw_acquire O a t) as (H1 & H2 & H3).
       destruct (SlidingWindowPolicy_try_acquire O a t) as [s' x]; cbn [fst snd] in *.
       rewrite <- H1. cbn. repeat split; try reflexivity; assumption.
-    - destruct (tie_sw_tua O a t Hn) as (H1 & H2 & H3).
-      destruct (SlidingWindowPolicy_time_until_available O a t) as [s' x]; cbn [fst snd] in *.
+    - destruct (tie_sw_tua O a t Hn) as ([s' x] & Hs & H1 & H2 & H3). rewrite Hs. cbn [fst snd] in *.
       rewrite <- H1. cbn. repeat split; try reflexivity; assumption.
   Qed.
 
